@@ -351,7 +351,7 @@ M("c15-dispatch-not-threaded", "C15", "C15.R2", PMF, "            modified_obj =
 M("c15-dispatch-first-only", "C15", "C15.R2", PMF, "            modified_obj = method(modified_obj, *args, **kwargs)\n        return modified_obj", "            modified_obj = method(modified_obj, *args, **kwargs)\n            break\n        return modified_obj")
 M("c15-hook-wrong-name", "C15", "C15.R2", PMF, 'return self._apply_plugins_on_object("generate_enums_code", generated_code)', 'return self._apply_plugins_on_object("generate_inputs_code", generated_code)')
 M("c15-hook-drops-arg", "C15", "C15.R2", PMF, '            "generate_enum", class_def, enum_type=enum_type\n', '            "generate_enum", class_def\n')
-M("c15-plugins-sorted", "C15", "C15.R2", PMF, "            for cls in plugins_types or []\n", "            for cls in sorted(plugins_types or [], key=lambda c: c.__name__)\n")
+M("c15-plugins-sorted", "C15", "C15.R18", PMF, "            for cls in plugins_types or []\n", "            for cls in sorted(plugins_types or [], key=lambda c: c.__name__)\n")
 M("c15-hook-never-called", "C15", "C15.R3", CG + "enums.py", "        if self.plugin_manager:\n            module = self.plugin_manager.generate_enums_module(module)\n", "")
 M("c15-noreimports-keeps-body", "C15", "C15.R4", "contrib/no_reimports.py", "        module.body = []\n", "        module.body = module.body[:1]\n        module.type_ignores = []\n")
 M("c15-extract-drops-two", "C15", "C15.R4", "contrib/extract_operations.py", "        method_def.body = method_def.body[1:]", "        method_def.body = method_def.body[2:]")
@@ -442,5 +442,30 @@ M("r5-visited-break", "C09", "C04.R9", ITF, "            if node not in visited:
   "            visited.add(node)\n            result.append(node)\n            for neighbor in self._dependencies[node]:\n                if neighbor in visited:\n                    break\n                visited.add(neighbor)\n                dfs(neighbor)")
 M("r5-shorter-results-one-level", "C15", "C15.R9", "contrib/shorter_results.py", "        fields.extend(_get_all_fields(class_dict[base.id], class_dict))", "        fields.extend(f for f in class_dict[base.id].body if isinstance(f, ast.AnnAssign))")
 M("r5-template-bypasses-map", "C13", "C03.R5", CLF, 'generate_name(variable_names[self._data_variable])', 'generate_name(self._data_variable)')
+
+# ----------------------------------------------------------------------- round-10 rules (blind spots of the mutation-coverage map)
+CUF = "client_generators/custom_fields.py"
+COF = "client_generators/custom_operation.py"
+M("r10-scalar-imports-not-handed-fields", "C14", "C14.R16", CUF, "        self.argument_generator.add_custom_scalar_imports()\n        self._imports.extend(self.argument_generator.imports)\n", "        self.argument_generator.add_custom_scalar_imports()\n",
+  note="the defect repaired by 8b25f48, restored")
+M("r10-scalar-imports-not-handed-ops", "C14", "C14.R16", COF, "        self.argument_generator.add_custom_scalar_imports()\n        self._imports.extend(self.argument_generator.imports)\n", "        self.argument_generator.add_custom_scalar_imports()\n")
+M("r10-scalar-imports-handed-too-early", "C14", "C14.R16", COF, "        self.argument_generator.add_custom_scalar_imports()\n        self._imports.extend(self.argument_generator.imports)\n",
+  "        self._imports.extend(self.argument_generator.imports)\n        self.argument_generator.add_custom_scalar_imports()\n")
+M("r10-argument-imports-dropped", "C14", "C14.R16", CUF, "        ) = self.argument_generator.generate_arguments(arguments)\n        self._imports.extend(self.argument_generator.imports)\n", "        ) = self.argument_generator.generate_arguments(arguments)\n")
+M("r10-typing-import-dropped", "C14", "C14.R16", COF, "        self._add_import(generate_import_from([OPTIONAL, ANY, DICT], TYPING_MODULE))\n", "")
+M("r10-typing-import-loses-union", "C14", "C14.R16", CUF, "                [OPTIONAL, UNION, ANY, DICT],\n", "                [OPTIONAL, ANY, DICT],\n")
+M("r10-typing-field-import-other-module", "C14", "C14.R16", CUF, "                [field_class_name.id], from_=\"custom_typing_fields\", level=1\n", "                [field_class_name.id], from_=\"custom_fields_typing\", level=1\n")
+M("r10-benign-handed-by-iadd", "C14", None, CUF, "        self.argument_generator.add_custom_scalar_imports()\n        self._imports.extend(self.argument_generator.imports)\n",
+  "        self.argument_generator.add_custom_scalar_imports()\n        self._imports.extend(list(self.argument_generator.imports))\n")
+PMF = "plugins/manager.py"
+M("r10-plugins-config-and", "C15", "C15.R18", PMF, "config_dict=config_dict or {}", "config_dict=config_dict and {}")
+M("r10-plugins-types-and", "C15", "C15.R18", PMF, "for cls in plugins_types or []", "for cls in plugins_types and []")
+M("r10-plugins-reversed", "C15", "C15.R18", PMF, "for cls in plugins_types or []", "for cls in reversed(plugins_types or [])")
+M("r10-plugins-set", "C15", "C15.R18", PMF, "for cls in plugins_types or []", "for cls in set(plugins_types or [])")
+M("r10-plugin-base-drops-config", "C15", "C15.R18", "plugins/base.py", "        self.config_dict = config_dict\n", "        self.config_dict = {}\n")
+M("r10-plugin-super-gets-empty-config", "C15", "C15.R18", "contrib/shorter_results.py", "        super().__init__(schema, config_dict)\n", "        super().__init__(schema, {})\n")
+M("r10-benign-plugins-loop", "C15", None, PMF, "        self.plugins: List[Plugin] = [\n            cls(schema=schema, config_dict=config_dict or {})\n            for cls in plugins_types or []\n        ]\n",
+  "        self.plugins: List[Plugin] = []\n        for cls in plugins_types or []:\n            self.plugins.append(cls(schema=schema, config_dict=config_dict or {}))\n")
+M("r10-benign-plugins-positional", "C15", None, PMF, "cls(schema=schema, config_dict=config_dict or {})", "cls(schema, config_dict or {})")
 
 from . import mutants_seeded  # noqa: F401,E402  (mutants generated from the confirmed seeded changes)
